@@ -32,7 +32,9 @@ from ..ref import folds as ref
 PROPERTY = 'C14'
 LEVEL = 'exploration'
 
-SYM = {'a': 2, 'b': -3, 'h': 0.5, '_': None, 'x': 'x', 'z': 0}
+SYM = {'a': 2, 'b': -3, 'h': 0.5, '_': None, 'x': 'x', 'z': 0,
+       # non-numeric text that contains a digit; a factor beyond 2^31.5
+       'q': 'Q3', 'L': 4000000000}
 EXTRA = 4                       # the extra literal number argument
 COLS = 'ABCDEFGHIJ'
 PROBE_COL = 'M'
@@ -442,6 +444,8 @@ def families(tier):
             fam.append(('agg', s, 'abh_x', 'all', 40))
             # zero is a number, not an empty cell
             fam.append(('agg', s, 'az_x', 'all', 40))
+            # "Q3" is non-numeric text although it holds a digit
+            fam.append(('agg', s, 'aq_', 'whole', 300))
         for s in SIX:
             fam.append(('agg', s, 'abh_x', 'whole', 500))
             fam.append(('agg', s, 'b_x', 'splits1', 12))
@@ -449,6 +453,9 @@ def families(tier):
             fam.append(('sp', (s, s), 'ab_', None, 300))
         for s in ((1, 2), (2, 1)):
             fam.append(('sp', (s, s, s), 'ab_', None, 300))
+        # products beyond 2^63 (whole numbers stay exact)
+        for s in ((1, 1), (1, 2), (2, 1)):
+            fam.append(('sp', (s, s), 'La_', None, 300))
         for s1, s2 in itertools.permutations(SP_DIFF_Q, 2):
             fam.append(('sp', (s1, s2), 'a_', None, 300))
     else:
